@@ -138,7 +138,10 @@ impl Context for CommonContext {
 
     /// Some(..) says that the name is in use already (by that alias, or by a symbol of another kind) and nothing was stored
     fn set_def(&self, name: String, value: Reg8) -> Option<Reg8> {
-        if self.exist(&name) {
+        if self.get_def(&name) == Some(value) && self.get_expr(&name).is_none() {
+            // the same alias read again (a file included twice)
+            None
+        } else if self.exist(&name) {
             Some(self.get_def(&name).unwrap_or(value))
         } else {
             self.defs.borrow_mut().insert(name.to_lowercase(), value)
